@@ -70,6 +70,8 @@ def units(ctx):
                 yield ("b", pi, nt, j)
     for k in range(len(CONFIG_HISTORIES)):
         yield ("d", k)
+    for k in range(4):
+        yield ("long", k)
     for vb in ([1, 2, 3, 4, 8] if ctx["tier"] == "quick" else [1, 2, 3, 4, 5, 8, 15, 16, 19, 32, 64, 100, 127]):
         for nt in (1, 2, 3):
             for pr in range(3):
@@ -141,6 +143,20 @@ CONFIG_HISTORIES = [
 def gen_cases(unit, ctx):
     kind = unit[0]
     allplans = list(plans(ctx["B"]))
+    if kind == "long":
+        # scale: 8-12 bars, dozens of notes per track, three tracks, onsets in the hundreds / thousands
+        plan = [["44"] * 8, ["34", "44", "68", "38", "58", "22", "24", "44", "34", "34"], [None] + ["44"] * 11, ["38"] * 12][unit[1]]
+        st, _ = grid(plan)
+        end = st[-1]
+        t0 = [(o, 12 if (o // 12) % 2 else 6, 21 + (o // 12) % 80, 1 + (o * 7) % 127) for o in range(0, end, 12)]
+        t1 = [(o, 36 if (o // 24) % 3 == 0 else 24, 108 - (o // 24) % 50, 64) for o in range(0, end - 36, 24)]
+        t2 = [(o, 6, 60, 100) for o in range(6, end, 96)]
+        for cfg in (FL[0], FL[15], FL[5], FL[10]):
+            for vb in (1, 8):
+                yield piece(plan, [t0], 1, cfg, vb)
+                yield piece(plan, [t0, t1], 0, cfg, vb)
+                yield piece(plan, [t0, t1, t2], 1, cfg, vb)
+        return
     if kind == "d":
         hist_ = CONFIG_HISTORIES[unit[1]]
         for plan in ([None], ["34", "44"]):
